@@ -12,6 +12,7 @@ import (
 	"fmt"
 	"net/http"
 	"net/http/httptest"
+	"os"
 	"sort"
 	"strings"
 	"testing"
@@ -81,7 +82,7 @@ type scn struct {
 	outcome    map[string]int
 	granted    map[string][]string // scopes the presented credential of each scheme is good for
 	errKind    map[string]int      // 0:401 1:403 2:418 3:plain
-	authz      int                 // 0 none 1 accept 2 deny plain 3 deny 402
+	authz      int                 // 0 none 1 accept 2 deny plain 3 deny 402 4 panics
 	broken     int                 // 0 ok 1 content-type 2 accept 3 query 4 body
 	cancelAt   int                 // >0: the request context is cancelled while the k-th authenticator consultation runs
 	flow       int                 // 0 full handler 1 accessor sequence
@@ -118,7 +119,7 @@ func generate(t *kernel.Tape) *scn {
 	for _, name := range s.schemes {
 		s.registered[name] = !t.Bool(8, "unregistered")
 		s.outcome[name] = t.Weighted("outcome", 3, 4, 2, 3, 1)
-		s.errKind[name] = t.Choose(4, "errkind")
+		s.errKind[name] = t.Choose(6, "errkind")
 		s.granted[name] = [][]string{{"read", "write"}, {"read"}, {"write"}, nil}[t.Weighted("granted", 3, 1, 1, 1)]
 	}
 	nalt := 1 + t.Choose(3, "nalts")
@@ -140,7 +141,7 @@ func generate(t *kernel.Tape) *scn {
 		s.alts = append(s.alts, alt)
 	}
 	s.global = t.Bool(3, "global")
-	s.authz = t.Weighted("authz", 3, 3, 2, 1)
+	s.authz = t.Weighted("authz", 3, 3, 2, 1, 1)
 	s.broken = t.Weighted("broken", 5, 1, 1, 1, 1)
 	s.flow = t.Choose(3, "flow")
 	if t.Bool(6, "context-cancelled-during-authentication") {
@@ -170,11 +171,16 @@ func rejectErr(kind int, scheme string) error {
 		return errors.New(http.StatusForbidden, "scheme %s forbids", scheme)
 	case 2:
 		return errors.New(418, "scheme %s is a teapot", scheme)
+	case 4:
+		// the scheme's own lookup was interrupted: still an error of a scheme that found credentials
+		return fmt.Errorf("scheme %s: checking the credential: %w", scheme, stdctx.Canceled)
+	case 5:
+		return fmt.Errorf("scheme %s: credential store: %w", scheme, os.ErrDeadlineExceeded)
 	}
 	return stderrors.New("scheme " + scheme + " failed")
 }
 
-func rejectCode(kind int) int { return []int{401, 403, 418, 500}[kind] }
+func rejectCode(kind int) int { return []int{401, 403, 418, 500, 500, 500}[kind] }
 
 // permutations of 0..n-1 in lexicographic order
 func permutations(n int) [][]int {
@@ -268,9 +274,11 @@ func (prop) Run(t *testing.T, tape *kernel.Tape, sc kernel.Scenario) *kernel.Res
 		}})
 	}
 	switch s.authz {
-	case 1, 2, 3:
+	case 1, 2, 3, 4:
 		u.RegisterAuthorizer(&simapi.Authorizer{W: world, Decide: func(int, *http.Request, any) error {
 			switch s.authz {
+			case 4:
+				panic("authorizer: principal of an unexpected type")
 			case 2:
 				return stderrors.New("authorizer says no")
 			case 3:
@@ -414,7 +422,9 @@ func markFaults(env *kernel.Env, s *scn) {
 			env.Fault("reject")
 		}
 	}
-	if s.authz >= 2 {
+	if s.authz == 4 {
+		env.Fault("authorizer-panics")
+	} else if s.authz >= 2 {
 		env.Fault("authorizer-denies")
 	}
 	if s.broken != 0 {
@@ -440,6 +450,7 @@ type observed struct {
 	admitting []string // Schemes of MatchedRoute.Authenticator
 	bodyReads int
 	sameReq   bool
+	panicked  bool // the authorizer's panic came out of the call
 }
 
 func (o observed) String() string {
@@ -495,7 +506,11 @@ func serve(env *kernel.Env, s *scn, ctx *middleware.Context, handler http.Handle
 	rec := httptest.NewRecorder()
 	if s.flow == 0 || s.flow == 2 {
 		if pm := kernel.Catch(func() { handler.ServeHTTP(rec, r) }); pm != "" {
-			env.Violate("C02/panic", "full-handler", "serving panicked: %s", pm)
+			if s.authz == 4 && world.Slots[0].AuthzCalls > 0 {
+				o.panicked = true // the authorizer's own panic unwinding to the server: nothing may have run
+			} else {
+				env.Violate("C02/panic", "full-handler", "serving panicked: %s", pm)
+			}
 		}
 		o.status = rec.Code
 		o.bodyReads = st.Reads
@@ -562,7 +577,11 @@ func serve(env *kernel.Env, s *scn, ctx *middleware.Context, handler http.Handle
 		o.status = 200
 	})
 	if pm != "" {
-		env.Violate("C02/panic", "accessor-flow", "accessor sequence panicked: %s", pm)
+		if s.authz == 4 && world.Slots[0].AuthzCalls > 0 {
+			o.panicked = true
+		} else {
+			env.Violate("C02/panic", "accessor-flow", "accessor sequence panicked: %s", pm)
+		}
 	}
 	o.bodyReads = st.Reads
 	return o
@@ -735,6 +754,13 @@ func judge(env *kernel.Env, s *scn, o observed, slot *simapi.Obs, order string) 
 			env.Violate("C02/principal-or-scopes-wrong", fmt.Sprintf("flow=%d", s.flow), "order %s: principal %v scopes %v admitting alternative %v do not come from one satisfied alternative", order, o.principal, o.scopes, o.admitting)
 			return
 		}
+	}
+	if s.authz == 4 {
+		// an authorizer that panics has not accepted the principal
+		if slot.HandlerRan > 0 || len(slot.Consumers) > 0 || o.bodyReads > 0 || (s.flow == 1 && o.authErr == nil && !o.panicked) {
+			env.Violate("C02/ran-although-refused", "authorizer-panicked", "order %s: the authorizer panicked, yet handler=%d consumers=%v bodyReads=%d status=%d (panic came out of the call: %v)", order, slot.HandlerRan, slot.Consumers, o.bodyReads, o.status, o.panicked)
+		}
+		return
 	}
 	if s.authz >= 2 {
 		want := 403
